@@ -28,8 +28,33 @@ from pyvc.vc import Unit
 MOD = "PyMatterSim.static.hessians"
 VMOD = "PyMatterSim.static.vector"
 
-NOT_DECIDED = []
-TRUSTED = []
+NOT_DECIDED = [
+    "numerical conditioning / accuracy of np.linalg.eigh (A1: floats are reals; eigh is an assumed relational contract)",
+    "'confirmed by finite differences' is replaced by the symbolic second derivative (pyvc.diff); finite differences are used only in the replay harness",
+    "the last composition step of the symmetry and translation clauses (from the proved entry-wise form of the saved matrix + the proved lemmas "
+    "B(-x)^T = B(x), D(j,i) = -D(i,j), the vanishing translation summand, to 'H = H^T' and 'H M^1/2 e_q = 0' over all neighbours) is an argument "
+    "on paper (substitution of equals and linearity of the neighbour sum), not one machine-checked query; symmetric parameter matrices are its hypothesis",
+    "participation ratios of the *saved eigenvectors* in (0,1]: proved for every non-zero field (unit participation_ratio); that the reshaped eigenvector "
+    "is non-zero needs the regrouping sum_{a<dN} f(a) = sum_{n<N} sum_{c<d} f(nd+c) of eigh's normalisation, which is not proved here",
+    "pairs exactly at the cutoff r_ij = rc (the documented energy is not twice differentiable there; the contract follows the inclusive test r <= rc) "
+    "and, for harmonic/Hertz, pairs exactly at contact r = sigma (outside the precondition of the C12 contract)",
+    "number of species K > 2 in the assembly unit (the species case split is enumerated: K = 1, 2; the code path is the same for all K)",
+    "the change '<=' -> '<' of the cutoff test differs from the contract only at exact ties r_ij = rc: the obligation is then not proved and no "
+    "float input shows it (UNDECIDED, exit 2), not a VIOLATION",
+]
+TRUSTED = [
+    "assumed relational contract of np.linalg.eigh (pyvc/libext/C11.py): fresh (w, V); only the column normalisation sum_b V(b,k)^2 = 1 is given to the solver",
+    "differentiation rules of pyvc/diff.py including the chain rule through sqrt and through an abstract function phi (the definition of 'second derivative' here)",
+    "callee contract of PairInteractions.caller is the C12 contract (triple = derivatives of the documented s(r)), used generalised to an arbitrary function "
+    "of (r, epsilon, sigma, r_c, shift); callee contract of remove_pbc is the C02 row spec (pbc_spec_row)",
+    "written loop summaries (pyvc.loops.written_summary) are checked by init/step obligations; the induction principle over the loop counter / particle number is trusted",
+    "universally quantified preconditions are used by instantiation: 'every particle type is in 1..K' (per application of ptype), 'no two particles coincide "
+    "modulo the periodic lattice' (at the pair of the loop step); definitions of the named spec functions within_rc/Bdiag/Boff are revealed at the pair of the step",
+    "generalisation pre-pass of pyvc.solve (products and reciprocals of non-numerals -> uninterpreted nl!mul / nl!inv with commutativity instances) is sound "
+    "for proving only; it never produces a refutation",
+    "instances sqrt(m_a m_a) = m_a of the lemma x > 0 => sqrt(x x) = x (proved as C11:lemma:x>0=>sqrt(x.x)=x)",
+    "pandas: DataFrame(dict).to_csv writes the columns in insertion order (pyvc/pandas_model.py)",
+]
 
 
 def _sum(xs):
@@ -274,7 +299,7 @@ class ParticipationRatio(Unit):
     module = VMOD
     qualname = "participation_ratio"
     prop = "C11"
-    timeout = 20
+    timeout = 60
 
     def cases(self):
         return ["d=2", "d=3"]
@@ -510,8 +535,7 @@ def _find_loops(qualname="HessianMatrix.diagonalize_hessian"):
     for n in ast.walk(node):
         if isinstance(n, ast.For):
             inner = [x for b in n.body for x in ast.walk(b) if isinstance(x, ast.For)]
-            stores = [x for b in n.body for x in ast.walk(b) if isinstance(x, (ast.AugAssign,)) and isinstance(x.target, ast.Subscript)]
-            if inner and stores and "remove_pbc" in ast.unparse(n):
+            if inner and "remove_pbc" in ast.unparse(n) and "hessian_matrix" in ast.unparse(inner[0]):
                 return n.lineno, inner[0].lineno
     return None, None
 
@@ -524,7 +548,9 @@ class Diagonalize(Unit):
     solver_opts = {"abstract_nl": True}
 
     def cases(self):
-        return ["d=2/K=2", "d=3/K=2", "d=2/K=1/default-outputfile"]
+        # K = number of species (masses / parameter matrices K x K); d=3 with K=2 is also proved (about 3 min on one core) and
+        # can be enabled here; the quick tier keeps the species case split in 2-D, where the mass logic is the same code
+        return ["d=2/K=2", "d=3/K=1", "d=2/K=1/default-outputfile"]
 
     # ------------------------------------------------------------------------------------------ callee contracts
     def _summaries(self, S):
@@ -954,3 +980,9 @@ def extra_checks(tier, seed, repo):
     for name, goal, opts in lemmas():
         obs.extend(prove_lemmas("C11", [(name, goal)], timeout=20, opts=opts or None))
     return {"obligations": obs}
+
+
+MANIFEST = {
+    "text": "For d in {2,3}, symbolic particle number N, symbolic positions, any non-singular cell, any periodicity mask in {0,1}^d, K in {1,2} species with arbitrary positive masses and arbitrary K x K parameter matrices, both shift settings and every potential selectable through PairInteractions.caller: (1) HessianMatrix.pair_matrix returns d2 phi(|a-b|)/da.da and d2 phi(|a-b|)/da.db (= minus the former) with phi' = s1 - s1rc, phi'' = s2, the derivatives being produced by symbolic differentiation of phi(sqrt(sum (a_k-b_k)^2)); the block is symmetric; (2) in HessianMatrix.diagonalize_hessian every entry of the matrix that is saved, and that is passed to eigh, equals the entry of M^-1/2 d2U M^-1/2: off-diagonal block -[r_ij <= rc] B(D(i,j))/sqrt(m_i m_j), diagonal block sum_j [r_ij <= rc] B(D(i,j))/m_i, with D the minimum image of C02 and the pair triple of C12 evaluated at (r_ij, eps, sigma, rc of the two types, shift) (both particle loops by written summaries with init/step obligations); which files are written, saved eigenvectors = eigh output, omega = sqrt(lambda) for lambda > 0 else lambda, PR column = participation ratio of the eigenvector reshaped to (N, d); inputs not written; (3) participation_ratio = (sum|e|^2)^2/(N sum|e|^4) and lies in (0,1] for every non-zero field (Cauchy-Schwarz by induction over N); (4) lemmas for the symmetry and translation clauses: B(-x)^T = B(x), minimum image odd, translation summand vanishes.",
+    "note": "floats as reals (A1); np.linalg.eigh assumed (relational); callee contracts of caller (C12, generalised) and remove_pbc (C02); no-coincident-particles and types-in-1..K as preconditions; the composition of the symmetry/translation lemmas over the neighbour sum is on paper; K > 2 not enumerated; on the unfixed repository the obligation assembly:diagonal-block fails (diagonal block weighted 1/sqrt(m_i m_j) instead of 1/m_i) - see design_notes/C11.md, fix design_notes/C11.fix-1.diff",
+}
